@@ -1200,6 +1200,18 @@ func (env *Env) callExpr(x *ast.CallExpr) EVal {
 			env.fail("typeis: unknown type")
 		}
 		return env.boolVal(f.Eq(v.V[0], f.BVu(64, typeID(t))))
+	case "unbox":
+		// unbox(x, T): the value of dynamic type T held by interface x (meaningful only where typeis(x, T))
+		argN(2)
+		v := env.eval(x.Args[0])
+		t := env.lookupType(x.Args[1])
+		if t == nil {
+			env.fail("unbox: unknown type")
+		}
+		if _, isPtr := t.Underlying().(*types.Pointer); isPtr {
+			return EVal{V: Val{v.V[1], v.V[2]}, T: t}
+		}
+		return EVal{V: env.tr.loadLeaves(env.curState(), shape(t), v.V[1], v.V[2]), T: t}
 	case "errhas":
 		// errhas(err, T): errors.As(err, *T) would succeed (T occurs in err's chain)
 		argN(2)
